@@ -42,6 +42,8 @@ package ws
 //@ macro WSINV(w) := (w.connectionClosed ==> w.closeChannel.$chclosed && (w.conn == nil || w.conn.$connClosed))
 //@ objinv (w *WebsocketConnection) [C13] T2-released: @WSINV(w)
 //@ objinv (w *WebsocketConnection) O1-once: (w.shutdownOnce.$done ==> w.connectionClosed) && (!w.shutdownOnce.$done ==> !w.closeChannel.$chclosed)
+// C12-W2: nobody ever closes the ship write channel, so a sender can never hit a closed channel
+//@ objinv (w *WebsocketConnection) [C12] W2-open: !w.shipWriteChannel.$chclosed
 //@ objinv (w *WebsocketConnection) O2-init: w.closeChannel != nil && w.dataProcessing != nil && w.shipWriteChannel != nil && w.shipWriteChannel != w.closeChannel
 //@ macro WSOK(w) := (@WSINV(w) && (w.shutdownOnce.$done ==> w.connectionClosed) && (!w.shutdownOnce.$done ==> !w.closeChannel.$chclosed) && w.closeChannel != nil && w.dataProcessing != nil && w.shipWriteChannel != nil && w.shipWriteChannel != w.closeChannel)
 //@ macro KEEPW(w) := w.shipWriteChannel.$chclosed == old(w.shipWriteChannel.$chclosed)
@@ -98,7 +100,8 @@ package ws
 //@   invariant @WSOK(w)
 //@ func (w *WebsocketConnection).writeShipPump() [C08,C12]
 //@   requires @WSOK(w) && !w.shipWriteChannel.$chclosed
-//@   modifies @wsst(w), w.shipWriteChannel.$chclosed
+//@   ensures [C12] W2-open: !w.shipWriteChannel.$chclosed
+//@   modifies @wsst(w)
 //@ loop (w *WebsocketConnection).writeShipPump #0
 //@   invariant @WSOK(w) && !w.shipWriteChannel.$chclosed
 
